@@ -252,6 +252,18 @@ class Preprocessor(Transformer):
                 f"len(data objects used for fitting)={self.n_data}"
             )
 
+        # The data must have the structure seen at fit; otherwise it would be silently
+        # broadcast against the fitted scaling parameters
+        for x, renamer, stacker in zip(
+            X, self.renamer.transformers, self.stacker.transformers
+        ):
+            stacker._validate_transform_data_type(x)
+            missing_dims = set(renamer.dim_mapping) - set(x.dims)
+            if missing_dims:
+                raise ValueError(
+                    f"Cannot transform data. Dimensions {missing_dims} are missing."
+                )
+
         X_t = X.copy()
         for transformer in self.get_transformers():
             X_t = transformer.transform(X_t)  # type: ignore
